@@ -12,6 +12,7 @@ use utils::*;
 mod cfgspec;
 mod checks;
 mod engine;
+mod fuzzdec;
 mod gen;
 mod model;
 mod norm;
